@@ -19,12 +19,30 @@ class SolverDisagreement(Exception):
     pass
 
 
+_HQ = {}
+
+
+def has_quant(t):
+    i = t.get_id()
+    r = _HQ.get(i)
+    if r is None:
+        if z3.is_quantifier(t):
+            r = True
+        elif z3.is_app(t):
+            r = any(has_quant(c) for c in t.children())
+        else:
+            r = False
+        _HQ[i] = r
+    return r
+
+
 def feasible(assertions):
-    """quick satisfiability check used for path pruning; unknown counts as feasible"""
+    """quick satisfiability check used for path pruning; unknown counts as feasible.  Quantified
+    assertions are dropped (an over-approximation: more paths are explored, none is lost)."""
     t0 = time.time()
     s = z3.Solver()
     s.set('timeout', FEAS_TIMEOUT_MS)
-    s.add(*assertions)
+    s.add(*[a for a in assertions if not has_quant(a)])
     r = s.check()
     STATS['feasibility'][0] += 1
     STATS['feasibility'][1] += time.time() - t0
